@@ -34,6 +34,12 @@ def ka_scenarios(rng, n):
                 continue
             op = {'op': rng.choice(['map', 'map_unordered', 'imap', 'imap_unordered']), 'n': rng.randint(1, 12), 'chunk_size': rng.choice([1, 2, 3]),
                   'elem': rng.choice(['scalar', 'tuple', 'dict']), 'init': True, 'exit': True}
+            if rng.random() < .25:
+                # a call that brings no worker_init / worker_exit of its own, between calls that do
+                op.pop(rng.choice(['init', 'exit']))
+                if rng.random() < .4:
+                    op.pop('init', None)
+                    op.pop('exit', None)
             if rng.random() < .3:
                 op['task_timeout'] = 5.0
             if rng.random() < .3:
@@ -144,8 +150,10 @@ def judge(chk, sc, o):
             exited = {c[3] for c in mine if c[1] == 'exit'}
             inited = {c[3] for c in mine if c[1] == 'init'}
             carried = prev_tokens if isinstance(prev_tokens, set) else set()
-            if worked - exited or (worked - inited - carried):
-                chk.violation('fresh_without_keep_alive', case, {'op': opi, 'no_exit': sorted(worked - exited), 'no_init': sorted(worked - inited - carried)},
+            no_exit = (worked - exited) if op.get('exit') else set()         # (a call runs the hooks it was given)
+            no_init = (worked - inited - carried) if op.get('init') else set()
+            if no_exit or no_init:
+                chk.violation('fresh_without_keep_alive', case, {'op': opi, 'no_exit': sorted(no_exit), 'no_init': sorted(no_init)},
                               'without keep_alive every working instance runs init and exit', input_class='hooks_without_keep_alive')
         prev_tokens, prev_ka, prev_restarted = set(oo.get('instances_alive') or []) | toks, ka, restarted
         prev_inited = {c[3] for c in calls if c[1] == 'init' and c[0] <= opi}
